@@ -1573,6 +1573,173 @@ Proof.
     + right. rewrite Ef. unfold os, gc_ops. cbn [run fold_left]. fold s1. apply RI. auto.
 Qed.
 
+(* ---------- a completed push survives every later crash (until a Delete of that blob) ---------- *)
+Lemma sfs_reopen fs c : sfs (reopen fs c) = fs.
+Proof. unfold reopen. destruct (read_index fs); reflexivity. Qed.
+
+Lemma blob_kept_by_op s o d :
+  Inv s -> exists_file (sfs s) (FBlob d) = true ->
+  (forall d', o = Delete d' -> d' <> d) ->
+  exists_file (sfs (runop s o)) (FBlob d) = true.
+Proof.
+  intros I Hx Hn. destruct (op_safe s o I) as (_ & _ & E & _). rewrite E.
+  destruct o; cbn; try exact Hx.
+  - destruct (exists_file (sfs s) (FBlob d0)); [exact Hx|].
+    destruct (H c =? d0); [|exact Hx]. destruct (d =? d0); [reflexivity|exact Hx].
+  - destruct (d =? d0) eqn:Ed; [|exact Hx]. apply N.eqb_eq in Ed. subst d0.
+    exfalso. exact (Hn d eq_refl eq_refl).
+Qed.
+
+Lemma stored_step_sound s x d acc :
+  Inv s -> (acc = true -> exists_file (sfs s) (FBlob d) = true) ->
+  stored_step H d acc x = true ->
+  exists_file (sfs (run_hop H shuffle false false true s x)) (FBlob d) = true.
+Proof.
+  intros I Ha Hs. destruct x as [o|o k]; cbn [run_hop].
+  - (* completed *)
+    destruct o as [d' c m|d' r|r|d'| |live]; cbn [stored_step] in Hs;
+      try (apply blob_kept_by_op; [exact I|now apply Ha|intros ? E; discriminate]).
+    + destruct ((d' =? d) && (H c =? d)) eqn:E.
+      * apply andb_true_iff in E as [E1 E2]. apply N.eqb_eq in E1. subst d'.
+        destruct (op_safe s (Push d c m) I) as (_ & _ & Eb & _). rewrite Eb. cbn.
+        destruct (exists_file (sfs s) (FBlob d)) eqn:Ex; [exact Ex|]. rewrite E2. now rewrite N.eqb_refl.
+      * apply blob_kept_by_op; [exact I|now apply Ha|intros ? E'; discriminate].
+    + destruct (d' =? d) eqn:E; [discriminate|]. apply N.eqb_neq in E.
+      apply blob_kept_by_op; [exact I|now apply Ha|]. intros d0 E0. injection E0 as <-. exact E.
+  - (* interrupted: present before and after the operation, hence at the cut *)
+    rewrite sfs_reopen.
+    assert (Hacc : acc = true /\ forall d', o = Delete d' -> d' <> d).
+    { destruct o as [d' c m|d' r|r|d'| |live]; cbn [stored_step] in Hs; try (split; [exact Hs|intros ? E; discriminate]).
+      destruct (d' =? d) eqn:E; [discriminate|]. apply N.eqb_neq in E.
+      split; [exact Hs|]. intros d0 E0. injection E0 as <-. exact E. }
+    destruct Hacc as [Hacc Hn].
+    pose proof (Ha Hacc) as H0.
+    pose proof (blob_kept_by_op s o d I H0 Hn) as H1.
+    destruct (op_safe s o I) as (_ & _ & _ & R). destruct (R k) as (_ & _ & _ & _ & P1 & _).
+    assert (X : has (crash_fs H shuffle false false true s o k) (FBlob d)).
+    { apply P1; now apply exists_file_true. }
+    unfold has in X. unfold exists_file.
+    destruct (files (crash_fs H shuffle false false true s o k) (FBlob d)); [reflexivity|contradiction].
+Qed.
+
+Theorem completed_push_survives (h : list hop) d :
+  stored_since H d h = true ->
+  exists_file (sfs (runc H shuffle false false true h init)) (FBlob d) = true.
+Proof.
+  unfold stored_since, runc.
+  assert (G : forall h s acc, Inv s -> (acc = true -> exists_file (sfs s) (FBlob d) = true) ->
+              fold_left (stored_step H d) h acc = true ->
+              exists_file (sfs (fold_left (run_hop H shuffle false false true) h s)) (FBlob d) = true).
+  { induction h0 as [|x h0 IH]; intros s acc I Ha Hf; cbn [fold_left] in *.
+    - now apply Ha.
+    - apply (IH _ (stored_step H d acc x)); [now apply inv_run_hop| |exact Hf].
+      intro Hs. now apply (stored_step_sound s x d acc). }
+  intro Hf. apply (G h init false inv_init); [discriminate|exact Hf].
+Qed.
+
+(* ---------- ... and so does a completed Tag (until a Tag/Untag of that name or a Delete of the blob) ---------- *)
+Definition on_disk (s : st) (d r : N) : Prop :=
+  exists l, read_index (sfs s) = Some l /\ In (d, Some r) l.
+
+Lemma on_disk_mem s d r : Inv s -> (on_disk s d r <-> In (r, d) (stags s)).
+Proof.
+  intro I. destruct (inv_named s I) as (l & Hl & Hn). unfold on_disk. split.
+  - intros (l' & Hl' & Hin). rewrite Hl in Hl'. injection Hl' as <-. now apply Hn.
+  - intro Hin. exists l. split; [exact Hl|now apply Hn].
+Qed.
+
+Lemma tag_kept_by_op s o d r :
+  In (r, d) (stags s) ->
+  (forall d' r', o = Tag d' r' -> r' <> r) -> (forall r', o = Untag r' -> r' <> r) ->
+  (forall d', o = Delete d' -> d' <> d) ->
+  In (r, d) (stags (runop s o)).
+Proof.
+  intros Hin HT HU HD. unfold run_op. destruct o as [d' c m|d' r'|r'|d'| |live]; cbn [op_mem].
+  - destruct (exists_file (sfs s) (FBlob d')); [exact Hin|].
+    destruct (negb (H c =? d')); [exact Hin|]. destruct m; exact Hin.
+  - destruct (exists_file (sfs s) (FBlob d')); cbn [stags]; [|exact Hin].
+    apply tag_set_iff. right. split; [|exact Hin]. intro E. exact (HT d' r' eq_refl (eq_sym E)).
+  - destruct (tag_get r' (stags s)); cbn [stags]; [|exact Hin].
+    unfold tag_del. apply filter_In. split; [exact Hin|]. cbn.
+    apply negb_true_iff, N.eqb_neq. intro E. exact (HU r' eq_refl (eq_sym E)).
+  - cbn [stags]. apply filter_In. split; [exact Hin|]. cbn.
+    apply negb_true_iff, N.eqb_neq. intro E. exact (HD d' eq_refl (eq_sym E)).
+  - exact Hin.
+  - exact Hin.
+Qed.
+
+Lemma tagged_step_sound s x d r st tg :
+  Inv s -> (st = true -> exists_file (sfs s) (FBlob d) = true) -> (tg = true -> In (r, d) (stags s)) ->
+  snd (tagged_step H d r (st, tg) x) = true ->
+  on_disk (run_hop H shuffle false false true s x) d r.
+Proof.
+  intros I Hst Htg Hs.
+  assert (Ihop : Inv (run_hop H shuffle false false true s x)) by (now apply inv_run_hop).
+  destruct x as [o|o k]; cbn [run_hop] in *.
+  - (* completed: read the memory of the state after *)
+    apply (on_disk_mem _ d r Ihop).
+    destruct o as [d' c m|d' r'|r'|d'| |live]; cbn [tagged_step fst snd] in Hs;
+      try (apply tag_kept_by_op; [now apply Htg|intros; discriminate|intros; discriminate|intros; discriminate]).
+    + destruct (r' =? r) eqn:Er; cbn [snd] in Hs.
+      * apply N.eqb_eq in Er. subst r'. apply andb_true_iff in Hs as [Ed Hs]. apply N.eqb_eq in Ed. subst d'.
+        unfold run_op. cbn [op_mem]. rewrite (Hst Hs). cbn [stags]. apply tag_set_iff. left. now split.
+      * apply N.eqb_neq in Er. apply tag_kept_by_op; [now apply Htg| |intros; discriminate|intros; discriminate].
+        intros d0 r0 E. injection E as _ <-. exact Er.
+    + destruct (r' =? r) eqn:Er; cbn [snd] in Hs; [discriminate|]. apply N.eqb_neq in Er.
+      apply tag_kept_by_op; [now apply Htg|intros; discriminate| |intros; discriminate].
+      intros r0 E. injection E as <-. exact Er.
+    + destruct (d' =? d) eqn:Ed; cbn [snd] in Hs; [discriminate|]. apply N.eqb_neq in Ed.
+      apply tag_kept_by_op; [now apply Htg|intros; discriminate|intros; discriminate|].
+      intros d0 E. injection E as <-. exact Ed.
+  - (* interrupted: the entry is in index.json before and after the operation, and the file
+       found is one of the two *)
+    assert (Hk : tg = true /\ (forall d' r', o = Tag d' r' -> r' <> r) /\ (forall r', o = Untag r' -> r' <> r) /\
+                 (forall d', o = Delete d' -> d' <> d)).
+    { destruct o as [d' c m|d' r'|r'|d'| |live]; cbn [tagged_step fst snd] in Hs;
+        try (split; [exact Hs|repeat split; intros; discriminate]).
+      - destruct (r' =? r) eqn:Er; cbn [snd] in Hs; [discriminate|]. apply N.eqb_neq in Er.
+        split; [exact Hs|]. split; [|split; intros; discriminate]. intros d0 r0 E. injection E as _ <-. exact Er.
+      - destruct (r' =? r) eqn:Er; cbn [snd] in Hs; [discriminate|]. apply N.eqb_neq in Er.
+        split; [exact Hs|]. split; [intros; discriminate|split; [|intros; discriminate]].
+        intros r0 E. injection E as <-. exact Er.
+      - destruct (d' =? d) eqn:Ed; cbn [snd] in Hs; [discriminate|]. apply N.eqb_neq in Ed.
+        split; [exact Hs|]. split; [intros; discriminate|split; [intros; discriminate|]].
+        intros d0 E. injection E as <-. exact Ed. }
+    destruct Hk as (Ht & HT & HU & HD).
+    pose proof (Htg Ht) as Hin0.
+    pose proof (tag_kept_by_op s o d r Hin0 HT HU HD) as Hin1.
+    destruct (op_safe s o I) as (I1 & _ & _ & R). destruct (R k) as (_ & _ & _ & RI & _).
+    unfold on_disk. rewrite sfs_reopen.
+    destruct RI as [RI|RI]; rewrite RI.
+    + now apply (on_disk_mem s d r I).
+    + now apply (on_disk_mem _ d r I1).
+Qed.
+
+Theorem completed_tag_survives (h : list hop) d r :
+  tagged_since H d r h = true ->
+  exists l, read_index (sfs (runc H shuffle false false true h init)) = Some l /\ tag_of l r d.
+Proof.
+  unfold tagged_since, runc.
+  assert (G : forall h s st tg, Inv s ->
+              (st = true -> exists_file (sfs s) (FBlob d) = true) -> (tg = true -> In (r, d) (stags s)) ->
+              snd (fold_left (tagged_step H d r) h (st, tg)) = true ->
+              on_disk (fold_left (run_hop H shuffle false false true) h s) d r).
+  { induction h0 as [|x h0 IH]; intros s st tg I Hst Htg Hf; cbn [fold_left] in *.
+    - apply (on_disk_mem s d r I). now apply Htg.
+    - destruct (tagged_step H d r (st, tg) x) as [st' tg'] eqn:E.
+      assert (Ix : Inv (run_hop H shuffle false false true s x)) by (now apply inv_run_hop).
+      apply (IH _ st' tg' Ix); [| |exact Hf].
+      + intro Hs. apply (stored_step_sound s x d st I Hst).
+        assert (E1 : fst (tagged_step H d r (st, tg) x) = stored_step H d st x).
+        { unfold tagged_step. cbn [fst].
+          destruct x as [[| | | | |]|[| | | | |] ?]; cbn [fst]; try reflexivity;
+            match goal with |- fst (if ?c then _ else _) = _ => destruct c; reflexivity end. }
+        rewrite E in E1. cbn [fst] in E1. now rewrite <- E1.
+      + intro Ht. apply (on_disk_mem _ d r Ix).
+        apply (tagged_step_sound s x d r st tg I Hst Htg). rewrite E. exact Ht. }
+  intro Hf. apply (G h init false false inv_init); [discriminate|discriminate|exact Hf].
+Qed.
+
 End Crash.
 
 (* ---------- the code before the repair: index.json written in place ---------- *)
@@ -1759,4 +1926,21 @@ Theorem gc_crash_safe_src :
       (read_index fsk = read_index (sfs s) \/
        read_index fsk = read_index (sfs (run_op H shuffle src_inplace src_unlink_first true s (Forget live)))).
 Proof. rewrite src_inplace_false, src_unlink_first_false. exact gc_crash_safe. Qed.
+
+Theorem completed_push_survives_src :
+  forall (H : list N -> N) (shuffle : nat -> list entry -> list entry),
+    (forall c l e, In e (shuffle c l) <-> In e l) ->
+    forall (h : list hop) (d : N),
+      stored_since H d h = true ->
+      exists_file (sfs (runc H shuffle src_inplace src_unlink_first true h init)) (FBlob d) = true.
+Proof. rewrite src_inplace_false, src_unlink_first_false. exact completed_push_survives. Qed.
+
+Theorem completed_tag_survives_src :
+  forall (H : list N -> N) (shuffle : nat -> list entry -> list entry),
+    (forall c l e, In e (shuffle c l) <-> In e l) ->
+    forall (h : list hop) (d r : N),
+      tagged_since H d r h = true ->
+      exists l, read_index (sfs (runc H shuffle src_inplace src_unlink_first true h init)) = Some l /\
+                tag_of l r d.
+Proof. rewrite src_inplace_false, src_unlink_first_false. exact completed_tag_survives. Qed.
 
